@@ -3,8 +3,9 @@
 Decided: CALLABLE-AS-DATA (the tensor accessors of DiscreteHMMConfiguration appear only in call position); SIBLING-DENSITY (sampler and density
 read the same three tensors with the same initial row); the posterior is joint minus marginal (normalised); random_weighted scores the sequence it
 sampled, with distinct keys; FFBS-RECURSION (the sampler's two scans have the forward-filter / backward-sample recursion: alpha_t from obs column and
-logsumexp(alpha_{t-1} + T), normalised filters, backward scan over the reversed filters with x_T from the last filter and x_{t-1} from
-filter + T[., x_t] normalised, fresh sub key per step, samples flipped back; linear forms, both orientations of the symmetric tensors accepted).  Not decided: numeric exactness of the posterior / sampler (declined).
+logsumexp over the previous state of alpha_{t-1}(j) + T[j, i], normalised filters, backward scan over the reversed filters with x_T from the last filter and x_{t-1} from
+filter + T[:, x_t] normalised, fresh sub key per step, samples flipped back; linear forms; index orientation is part of the rule because
+the tensors are asymmetric once the truncation distance reaches N/2).  Not decided: numeric exactness of the posterior / sampler (declined).
 """
 import ast
 
@@ -92,6 +93,21 @@ def run(chk, prog):
                     "step log-prob = log carry[latent] + log obs[latent, obs]", derived=show(y)[:300], expected="uses the carried row and the observation logits", where=chk.where(m, lp))
         chk.require(mentions_any(co, lambda x: is_t(x, "attr") and x[2] == "transition_distribution") and not mentions_any(co, lambda x: is_t(x, "attr") and x[2] == "observation_distribution"),
                     "CARRY-THREAD", "latent_sequence_posterior/carry", "next carry = transition row of the current latent", derived=show(co)[:200], expected="softmax(transition logits[latent, :])", where=chk.where(m, lp))
+        # exact step form (orientation included): log carry[z_t] + log softmax(obs logits)[z_t, y_t]; carry' = softmax(trans logits[z_t, :]); carry_0 = softmax(initial logits)
+        ZL, YL = ("elem", P("latent_point")), ("elem", OBS)
+        hm = mk_proj(("call", ("global", m.dotted + ".latent_marginals"), (CFG, OBS), ()), 0)
+        lg_ = lambda d: ("attr", ("attr", hm, d), "logits")
+        sm_ = lambda x: ("call", ("global", "jax.nn.softmax"), (x,), ())
+        log_ = lambda x: ("call", ("global", "jax.numpy.log"), (x,), ())
+        ALL_ = ("sliceobj", C(None), C(None), C(None))
+        carry_t = sc.carry_in
+        want_y = {frozenset([log_(("index", carry_t, ZL))]): 1, frozenset([log_(("index", sm_(lg_("observation_distribution")), ("tuple", (ZL, YL))))]): 1}
+        alt_y = {frozenset([log_(("index", carry_t, ZL))]): 1, frozenset([("index", ("call", ("global", "jax.nn.log_softmax"), (lg_("observation_distribution"),), ()), ("tuple", (ZL, YL)))]): 1}
+        chk.require(lin(y) in (want_y, alt_y), "FFBS-RECURSION", "latent_sequence_posterior/step-form", "step log-probability", derived=show_lin(lin(y))[:300],
+                    expected="log carry[z_t] + log softmax(observation logits)[z_t, y_t] (rows index the latent state)", where=chk.where(m, lp))
+        chk.require(co in (sm_(("index", lg_("transition_distribution"), ("tuple", (ZL, ALL_)))), sm_(("index", lg_("transition_distribution"), ZL))), "FFBS-RECURSION", "latent_sequence_posterior/carry-form", "next carry",
+                    derived=show(co)[:200], expected="softmax(transition logits[z_t, :]) - the row of the current latent state", where=chk.where(m, lp))
+        chk.require(sc.init == sm_(lg_("initial_distribution")), "FFBS-RECURSION", "latent_sequence_posterior/init", "initial carry", derived=show(sc.init)[:200], expected="softmax(initial logits)", where=chk.where(m, lp))
         xs = sc.xs
         chk.require(is_t(xs, "tuple") and xs[1] == (P("latent_point"), OBS), "IDX-ALIGN", "latent_sequence_posterior/xs", "latent and observation sequences scanned together", derived=show(xs), expected="(latent_point, observation_sequence)", where=chk.where(m, lp))
     else:
@@ -154,9 +170,9 @@ def ffbs_rules(chk, prog, m, ff):
         chk.require(bool(ok), "FFBS-RECURSION", f"ffbs/{inst}", what, derived=show(derived)[:300] if isinstance(derived, tuple) else str(derived)[:300], expected=expected, where=where)
 
     ALL = ("sliceobj", C(None), C(None), C(None))
-    # scaled_circulant builds SYMMETRIC circulant tensors (source[i] == source[N - i]); the code in the tree itself relies on it (the forward recursion
-    # sums over the second axis of T).  Row i and column i are therefore the same vector, and both orientations are accepted.
-    line_of = lambda ix, i: ix in (("tuple", (ALL, i)), ("tuple", (i, ALL)), i)
+    # Orientation matters: scaled_circulant is symmetric only while the truncation distance is below N/2, and the property quantifies over all
+    # configurations.  transition_n[i, j] = log p(x_t = j | x_{t-1} = i) (softmax over the last axis), obs_n[i, y] = log p(y | x = i).
+    line_of = lambda ix, i: ix == ("tuple", (ALL, i))
     # ---------------- forward pass
     okf = is_t(F.init, "tuple") and len(F.init[1]) == 2
     req(okf and F.init[1][0] == C(0) and F.init[1][1] == prior, "forward/init", "initial carry of the forward scan", F.init, "(0, prior)")
@@ -187,10 +203,12 @@ def ffbs_rules(chk, prog, m, ff):
             ok1 = f1.get(frozenset([obn])) == 1 and len(rest) == 1 and f1[rest[0]] == 1 and len(rest[0]) == 1
             if ok1:
                 t_ = next(iter(rest[0]))
-                ok1 = is_mcall(t_, "reshape") and t_[2] == (C(-1), C(1)) and is_call(t_[1][1], "logsumexp") and (
-                    (dict(t_[1][1][3]).get("axis") in (C(-1), C(1)) and lin(t_[1][1][2][0]) == {frozenset([prev]): 1, frozenset([trn]): 1})
-                    or (dict(t_[1][1][3]).get("axis") == C(0) and lin(t_[1][1][2][0]) == {frozenset([col(prev)]): 1, frozenset([trn]): 1}))
-        req(ok1, "forward/t-branch", "alpha_t", a1, "(obs_n + logsumexp(alpha_{t-1} + transition_n, axis=-1).reshape(-1, 1))[:, y_t]")
+                tr_T = lambda x: x in (("attr", trn, "T"), ("call", ("attr", trn, "transpose"), (), ()), ("call", ("global", "jax.numpy.transpose"), (trn,), ()))
+                ax, inner_ = dict(t_[1][1][3]).get("axis") if is_call(t_[1][1], "logsumexp") else None, lin(t_[1][1][2][0]) if is_call(t_[1][1], "logsumexp") and t_[1][1][2] else {}
+                summed_over_prev = (ax == C(0) and inner_ == {frozenset([col(prev)]): 1, frozenset([trn]): 1}) or \
+                    (ax in (C(-1), C(1)) and len(inner_) == 2 and inner_.get(frozenset([prev])) == 1 and any(len(mm) == 1 and tr_T(next(iter(mm))) and c == 1 for mm, c in inner_.items()))
+                ok1 = is_mcall(t_, "reshape") and t_[2] == (C(-1), C(1)) and summed_over_prev
+        req(ok1, "forward/t-branch", "alpha_t", a1, "(obs_n + logsumexp(alpha_{t-1}.reshape(-1, 1) + transition_n, axis=0).reshape(-1, 1))[:, y_t]: the sum runs over the PREVIOUS state j of alpha_{t-1}(j) p(i | j)")
     # ---------------- backward pass
     filters = ("stack", y[1][1])
     flipped = lambda x: is_call(x, "flip") and x[2] and x[2][0] == filters and (dict(x[3]).get("axis") == C(0) or (len(x[2]) > 1 and x[2][1] == C(0)))
